@@ -106,6 +106,16 @@ CHECKS = {
              'an accepted event stays owed unless an equal job is pending or its evaluation started after acceptance.',
         note='Partial: interleavings are at the granularity of put_job\'s shared accesses, not bytecode; Flask threading is outside.',
         design='3/C13', technique=TECH),
+    'C14': dict(
+        text='For every rule of the live Flask url_map the registered (decorated) view function is called inside a real request '
+             'context where the session user/admin values, the configured webhook credentials and the configured repository '
+             'identity are symbolic and pr ids are symbolic integers; branch names are solver-drawn members and near-misses of '
+             'the accepted grammar. z3 decides per path: job enqueued iff authorised (admin-only set taken from the statement) '
+             'and parameters valid; refusal has an error status; the job carries the validated parameters. rx2z3 lemma: the API '
+             'branch grammar is within the GWF destination classes.',
+        note='Partial: werkzeug routing, OAuth login and webhook payload schema validation are outside; management forms are '
+             'checked for their gate attribute only. Every cell is also re-run concretely (witness replay).',
+        design='3/C14', technique=TECH),
     'C16': dict(
         text='Real simplecmd.cmd/_do_cmd with a Popen stub under symbolic mode (success, exit code, timeout, OSError), return code, '
              'str/bytes and log level; real lib.git Repository/Branch methods inside the real process_task with the k-th git '
